@@ -157,6 +157,27 @@ CHECKS['C07'] = dict(
          'stream model, pyvc (A-py), z3/cvc5.',
     thorough=True)
 
+CHECKS['C08'] = dict(
+    category='other',
+    text='Every function between the stream and the records (_read_until, '
+         '_read_header, iter_sections, _read_content, _process_content, the '
+         'text utilities, split_lines) is verified to let only '
+         'DiffXParseError escape, with linenum equal to the line counter on '
+         'entry, and DiffXParseError.__init__ to build its message from '
+         'exactly those attributes - for all inputs, relative to the stated '
+         'models of the builtins. For the object model the closing of the '
+         'stream is a structural obligation; its error family is covered by '
+         'a bounded fuzz (labelled bounded) and has one known finding '
+         '(container header options named like object-model attributes).',
+    design_ref='5/C08',
+    technique='contract-based deductive verification of exception freedom '
+              '(every modelled raising operation forks a path that must be '
+              'caught or infeasible) + bounded fuzz for the DOM',
+    note='Level "other": reader part proved relative to the builtin models; '
+         'DOM part bounded with a known finding; whole-iteration '
+         'termination not proved.',
+    thorough=True)
+
 NOT_YET = 'check not built yet (work in progress; see DESIGN.md section 5)'
 NA = {}
 
